@@ -75,6 +75,17 @@ def check_crystal(part, row, ops, cell, sites_int, D, case, slab_bounds=None, st
     part.ev()
     try:
         c, zs, labels, occ = build_crystal(number, choice, cell, sites_int, D, start_z, container=container)
+        if case.get("variant") == "after-exports":
+            # the unit-cell atoms are asked for AFTER the three file exports and a first query have run on the same object (and the
+            # dictionary handed out first must itself stay intact): exports are read-only users of the same data
+            first = c.unit_cell_atoms()
+            snap = {k: np.array(v, copy=True) for k, v in first.items() if isinstance(v, np.ndarray)}
+            for export in (c.to_poscar_string, c.to_cif_string, c.to_shelx_string, c.to_poscar_string):
+                export()
+            for k, v in snap.items():
+                if not np.array_equal(np.asarray(first[k]), v):
+                    part.fail("export-mutates:%s" % k, "exporting the crystal to POSCAR / CIF / .res changed the %r array of the unit-cell atoms handed out before (%s)" % (k, sk), case)
+                    break
         uc = c.unit_cell_atoms()
     except Exception as e:
         part.fail("raise:%s" % sk, "unit_cell_atoms raised %r for %s" % (e, sk), case)
@@ -261,6 +272,7 @@ def plan_for_setting(row, tier, seed):
     cases.append({"number": number, "choice": choice, "D": N, "sites": [(N, -N, 2 * N)], "cell": cells[0], "slab": None, "z0": 29,
                   "variant": "int-array", "container": "int"})
     cases.append({"number": number, "choice": choice, "D": N, "sites": reps0[:7], "cell": cells[0], "slab": None, "z0": 11, "variant": "list", "container": "list"})
+    cases.append({"number": number, "choice": choice, "D": N, "sites": reps0[:7], "cell": cells[0], "slab": None, "z0": 5, "variant": "after-exports"})
     Dg = 12 * 997
     for ci, cell in enumerate(cells):
         cases.append({"number": number, "choice": choice, "D": Dg, "sites": generic_sites(seed + ci, Dg, ops), "cell": cell,
